@@ -175,3 +175,13 @@ Theorem c17_src_hashKey : forall key, is_bytes key -> Z.of_nat (length key) < 2 
 Proof. exact src_hashKey. Qed.
 Print Assumptions c17_src_hashKey.
 
+
+(* the order sort.Sort(Uint32Slice) uses in updateSortedHash is `<` on the elements — the
+   order in which the model's cache (sort_u32) is strictly increasing *)
+From FV Require Import Generated.U32Slice.
+Theorem c17_src_sort_order : forall (x : list Z) i j,
+  0 <= i < Z.of_nat (length x) -> 0 <= j < Z.of_nat (length x) ->
+  go_Uint32Slice_Len x = Z.of_nat (length x) /\
+  go_Uint32Slice_Less x i j = Ok (nth (Z.to_nat i) x 0 <? nth (Z.to_nat j) x 0).
+Proof. exact src_u32slice. Qed.
+Print Assumptions c17_src_sort_order.
